@@ -158,7 +158,9 @@ add("C12", "TLC on LikelihoodRe.tla (exact rational Fisher matrices of every nif
     "the exact transformations (also amended), E_data[Jt^H Jt] = M by exact moment substitution for the variable-covariance Gaussian; batched rows "
     "along either axis and dict-shaped data must give the block-diagonal matrix of the per-row spec matrices. Complex instances: the variable-covariance "
     "Gaussian on complex data (F = diag(s^2, 4/s^2)) and complex Gaussian data under a complex linear model C = A + iB on real or complex parameters "
-    "(M = C^H N^-1 C, Hermitian on the spec; L o R = M on every tangent and R adjoint to L w.r.t. the real inner product on the code).",
+    "(M = C^H N^-1 C, Hermitian on the spec; L o R = M on every tangent and R adjoint to L w.r.t. the real inner product on the code). The energies themselves are "
+    "bound through their exact gradients (Score: Gaussian, Poisson, Student-t, categorical, variable-covariance Gaussian / Student-t, pulled back, summed, frozen) "
+    "= jax.grad of the real energy.",
     TRUST + "float comparison 1e-10 relative.")
 add("C13", "TLC exhaustive on OpAlgebra.tla (sampling obligations sf/si, PSD law) + exact covariance of draw_sample by unit excitations through Random.normal for every emitted program; SamplingEnabler by numerical inversion",
     "OpAlgebra.tla carries for every operator expression whether it MUST be able to draw a sample forward / from its inverse (positive scalings, diagonals, "
